@@ -241,7 +241,13 @@ def run_property(plan: Plan, tier: str, seed: int, contracts_mod_names, replay=N
         kinds = {}
         for o in obls:
             kinds[o.kind] = kinds.get(o.kind, 0) + 1
-        fn_info.append({"function": qn, "sha256": eng.fs.sha256, "obligations": len(obls), "by_kind": kinds})
+        fi = {"function": qn, "sha256": eng.fs.sha256, "obligations": len(obls), "by_kind": kinds}
+        if getattr(eng.fs, "renamed_locals", None):
+            # same AST up to the names of locals as the recorded one: the names were mapped back (contracts/_shapes.json)
+            fi["renamed_locals_mapped_back"] = [f"{a} -> {b}" for a, b in eng.fs.renamed_locals]
+            print(f"note: {qn}: locals renamed in the source ({', '.join(fi['renamed_locals_mapped_back'])}); "
+                  f"the function is otherwise identical to the recorded one, names mapped back")
+        fn_info.append(fi)
     if plan.lemmas:
         try:
             leng, lobls = symexec.prove_lemmas(plan.lemmas, pid, plan.consts)
